@@ -361,6 +361,9 @@ func checkUploaderErrors(m *Module, r *Report) {
 					canNil = true
 				}
 			}
+			if nilness(errRes, b) == isNonNil {
+				continue // an error return: the value was just tested non-nil
+			}
 			if !canNil {
 				// handing back the finishing call's own error is the other accepted shape
 				pass := len(origins(errRes)) > 0
